@@ -55,7 +55,7 @@ REGS = [("f", e, d) for e in EXPRS for d in ("same", "ui")] + \
 GRAPH_EVENTS = [("child", 0, 1), ("child", 0, None), ("child", 1, 2),
                 ("kids_append", 0, 1), ("kids_append", 0, 2),
                 ("kids_append", 1, 2), ("kids_pop", 0), ("add_trait", 1),
-                ("add_trait", 2)]
+                ("add_trait", 2), ("del_child", 0)]
 
 
 def event_menu():
